@@ -68,6 +68,12 @@ func (e *Effects) Writes() []Write {
 						_ = al
 						continue
 					}
+					// assignment to a captured local variable by a closure that does not outlive the invocation that
+					// made it (deferred, or called on the spot): as local as the variable itself. (A closure that is
+					// returned or stored shares the variable between its calls: that stays an effect.)
+					if fv, ok := in.Addr.(*ssa.FreeVar); ok && capturedLocalOfTransientClosure(fv) {
+						continue
+					}
 					w := Write{Instr: in, Fn: f, Addr: in.Addr, What: describeAddr(in.Addr)}
 					w.Roots = e.provenance(baseOf(in.Addr), f, 0, map[ssa.Value]bool{})
 					out = append(out, w)
@@ -497,4 +503,57 @@ func originOf(f *ssa.Function) *ssa.Function {
 		return o
 	}
 	return f
+}
+
+
+// capturedLocalOfTransientClosure: fv is a free variable of a closure every instance of which is only deferred or
+// called directly by the function that makes it, and the variable it captures is a local (an Alloc) of that function.
+func capturedLocalOfTransientClosure(fv *ssa.FreeVar) bool {
+	f := fv.Parent()
+	par := f.Parent()
+	if par == nil {
+		return false
+	}
+	idx := -1
+	for i, x := range f.FreeVars {
+		if x == fv {
+			idx = i
+		}
+	}
+	if idx < 0 {
+		return false
+	}
+	n := 0
+	for _, b := range par.Blocks {
+		for _, in := range b.Instrs {
+			mc, ok := in.(*ssa.MakeClosure)
+			if !ok || mc.Fn != ssa.Value(f) || idx >= len(mc.Bindings) {
+				continue
+			}
+			n++
+			if _, isAlloc := mc.Bindings[idx].(*ssa.Alloc); !isAlloc {
+				return false
+			}
+			refs := mc.Referrers()
+			if refs == nil {
+				return false
+			}
+			for _, r := range *refs {
+				switch u := r.(type) {
+				case *ssa.Defer:
+					if u.Call.Value != ssa.Value(mc) {
+						return false
+					}
+				case *ssa.Call:
+					if u.Call.Value != ssa.Value(mc) {
+						return false
+					}
+				case *ssa.DebugRef:
+				default:
+					return false
+				}
+			}
+		}
+	}
+	return n > 0
 }
